@@ -92,6 +92,35 @@ func c04Configs(thorough bool) []modelCfg {
 			}
 		}
 	}
+	// real fault kinds instead of the panicking observer: what makes a rule fail must not matter to the
+	// policy (nor leave anything behind for the next rule or the next call on the same data context)
+	faults := []string{`cnt.C6 = "x"`, `cnt.C6 = 1 / 0`, `nosuch(1)`, `cnt.Nope = 1`, `cnt.C6 = cnt.C5 + "x"`}
+	for n := 2; n <= 3; n++ {
+		sal := salPattern("desc", n)
+		for _, fail := range subsetsUpTo(n, n) {
+			for _, ft := range faults {
+				var rules []ruleCfg
+				any := false
+				for i := 0; i < n; i++ {
+					r := ruleCfg{Name: ruleNames[i], Sal: sal[i]}
+					if fail[i] {
+						r.Fault = ft
+						any = true
+					}
+					rules = append(rules, r)
+				}
+				if !any {
+					continue
+				}
+				for _, b := range []bool{true, false} {
+					out = append(out, modelCfg{Prop: "C04", Rules: rules, Model: "Execute", B: b, Twice: true})
+					names := append([]string{}, ruleNames[:n]...)
+					names = append(names[1:], names[0])
+					out = append(out, modelCfg{Prop: "C04", Rules: rules, Model: "ExecuteSelectedRulesWithControl", B: b, Names: names, Twice: true})
+				}
+			}
+		}
+	}
 	// several rules per incremental call (adds in front of / between existing rules together with
 	// replacements and salience changes of existing rules), every map-iteration order inside the builds
 	mk := func(v ...int64) []ruleCfg {
@@ -147,7 +176,7 @@ func init() {
 		BudgetQuick: 150 * time.Second,
 		BudgetThor:  25 * time.Minute,
 		Kind:        "schedules",
-		Rule: "all rule sets of 1..4(5) rules with saliences from {-1, 0, 2, absent} (every pattern incl. ties/negatives) x every failing subset x both policy values x {Execute, ExecuteSelectedRules, ExecuteSelectedRulesWithControl}; " +
+		Rule: "all rule sets of 1..4(5) rules with saliences from {-1, 0, 2, absent} (every pattern incl. ties/negatives) x every failing subset x both policy values x {Execute, ExecuteSelectedRules, ExecuteSelectedRulesWithControl}; the same with five real fault kinds (ill-typed store into an injected field, division by zero, unknown function, unknown field, ill-typed operand) instead of the panicking observer, each call made twice on the same engine and data context; " +
 			"plus arrival histories: every insertion order via BuildRuleWithIncremental, every incremental salience change, and incremental calls carrying several rules at once (adds mixed with replacements and salience changes) under every map-iteration order inside the builds; each case is one deterministic execution on the real engine judged against the staged reference plan (one-at-a-time, non-increasing salience, exactly once, stop/continue policy, error iff failure, per-rule effect counters)",
 		Assume: []string{"injected observer functions terminate"},
 		Run: func(c *hx.Ctx) {
